@@ -55,6 +55,7 @@ inductive Err where
   | blockSize      -- ValueError "Wrong block size or declared"
   | zeroDivision   -- ZeroDivisionError  (`size / hop` with hop = 0, `1 / ceil(0)`)
   | maxEmpty       -- ValueError  `max()` of an empty iterable (hop = 0 with a window)
+  | numpyMissing   -- ModuleNotFoundError: a numpy default is needed and numpy is not installed
   deriving DecidableEq, Repr
 
 def Err.kind : Err → String
@@ -63,6 +64,7 @@ def Err.kind : Err → String
   | .blockSize => "ValueError"
   | .zeroDivision => "ZeroDivisionError"
   | .maxEmpty => "ValueError"
+  | .numpyMissing => "ImportError"
 
 def Err.tag : Err → String
   | .windowType => "window-type"
@@ -70,6 +72,7 @@ def Err.tag : Err → String
   | .blockSize => "block-size"
   | .zeroDivision => "zero-division"
   | .maxEmpty => "max-empty"
+  | .numpyMissing => "numpy-default"
 
 /-! ### the `wnd` argument -/
 
@@ -204,6 +207,33 @@ def overlapAddList (blks : List (List α)) (size? hop? : Option Nat) (wnd : WndA
       match normWnd size hop normalize w0 with
       | .error e => ⟨[], some e⟩
       | .ok w1 => olaCore size hop w1 blks
+
+/-- everything `overlap_add.list` can raise before it asks for a block (size known) -/
+def olaPrologueErr (size hop : Nat) (wnd : WndArg α) (normalize : Bool) : Option Err :=
+  match resolveWnd size wnd with
+  | .error e => some e
+  | .ok w0 =>
+    match normWnd size hop normalize w0 with
+    | .error e => some e
+    | .ok w1 =>
+      match truthy w1 with
+      | some w => if w.length ≠ size then some .windowSize else none
+      | none => none
+
+/-- the block source may itself be a generator that raises at its first `next` (`blk_gen` of the
+    stft wrapper does, for a bad analysis window): with a declared size the overlap-add's own
+    checks come first, with size detection `peek()` reaches the source first -/
+def overlapAddFrom (src : Except Err (List (List α))) (size? hop? : Option Nat) (wnd : WndArg α)
+    (normalize : Bool) : Out α :=
+  match src with
+  | .ok blks => overlapAddList blks size? hop? wnd normalize
+  | .error e =>
+    match size? with
+    | none => ⟨[], some e⟩
+    | some size =>
+      match olaPrologueErr size (hop?.getD size) wnd normalize with
+      | some e' => ⟨[], some e'⟩
+      | none => ⟨[], some e⟩
 end top
 
 /-! ## the `stft` wrapper
@@ -280,14 +310,21 @@ structure Plan where
 def notSpecified : PV := .obj "NotSpecified"
 def defaultOla : PV := .obj "overlap_add"
 
+/-- `k.startswith("ola_")` and `k[len("ola_"):]` in one step -/
+def stripOla (k : String) : Option String :=
+  match k.toList with
+  | 'o' :: 'l' :: 'a' :: '_' :: rest => some (String.ofList rest)
+  | _ => none
+
 /-- the loop over the keywords that are left -/
 def routeRest (ola : PV) : Dict → Dict → Except PlanErr Dict
   | [], acc => .ok acc
   | (k, v) :: rest, acc =>
-    if k.startsWith "ola_" then
-      if ola ≠ .none then routeRest ola rest (dictSet acc (k.drop 4).toString v)
+    match stripOla k with
+    | some k' =>
+      if ola ≠ .none then routeRest ola rest (dictSet acc k' v)
       else .error (.olaOptionWithoutOla k)
-    else .error (.unknownKey k)
+    | none => .error (.unknownKey k)
 
 /-- everything `wrapper` decides before any block is produced -/
 def stftPlan (kwparams kwargs : Dict) : Except PlanErr Plan :=
@@ -386,5 +423,40 @@ def blkGenTrace (size : Nat) (hop? : Option Nat) (wnd : WndArg α) (st : Stages 
     let blks := ALV.C08.blocks size (hop?.getD size) (0 : α) sig
     blks.map fun blk => processTrace (st.funcs size) (windowed w blk)
 end blkgen
+
+/-! ### the whole wrapper on a finite signal -/
+
+/-- the keyword arguments the overlap-add strategy is called with, once understood as
+    `overlap_add.list` arguments -/
+structure OlaCall (α : Type) where
+  size? : Option Nat
+  hop? : Option Nat
+  wnd : WndArg α
+  normalize : Bool
+
+structure StftOut (α : Type) where
+  blocks : Option (List (List α))   -- `ola=None`: the Stream of processed blocks
+  out : List α                      -- otherwise: the samples
+  err : Option Err
+
+section run
+variable [Add α] [Mul α] [Neg α] [Div α] [OfNat α 0] [OfNat α 1] [NatCast α] [LT α] [DecidableLT α] [DecidableEq α]
+
+/-- `blk_gen(**blk_params)` if `ola is None` else `ola(blk_gen(**blk_params), **ola_params)` with
+    `ola = overlap_add.list` -/
+def stftRun (needsNumpy : Bool) (size : Nat) (hop? : Option Nat) (wnd : WndArg α) (st : Stages α)
+    (ola : Option (OlaCall α)) (sig : List α) : StftOut α :=
+  -- a step left `NotSpecified` makes `blk_gen` import its numpy default before anything else;
+  -- without numpy (this sandbox) that import is the first thing `blk_gen` raises
+  let src := if needsNumpy then .error .numpyMissing else blkGen size hop? wnd st sig
+  match ola with
+  | none =>
+    match src with
+    | .ok bs => ⟨some bs, [], none⟩
+    | .error e => ⟨none, [], some e⟩
+  | some a =>
+    let r := overlapAddFrom src a.size? a.hop? a.wnd a.normalize
+    ⟨none, r.out, r.err⟩
+end run
 
 end ALV.C09
